@@ -24,7 +24,8 @@ Follows the Go code as it is:
   middlewares applied from the last to the first).
 -/
 namespace CoapVerif.Model.Router
-open CoapVerif.Generated.RouterLockShape (defaultPatternText emptyPathReplacement uriPathOptionID)
+open CoapVerif.Generated.RouterLockShape (defaultPatternText emptyPathReplacement uriPathOptionID
+  observationCleansUpOnEveryError discoveryCleansUpOnFailedWrite)
 open CoapVerif.Generated.OptionDefs (coapOptionDefs)
 
 /-! ## Failures -/
@@ -416,5 +417,36 @@ def wirePath (segs : List Str) : Option Str :=
     through `options.WithMux(router)`; the code plays no part -/
 def Router.wireServe (r : Router) (order : List (Str × Route)) (_code : Nat) (segs : List Str) : Outcome :=
   r.serveCOAP order (wirePath (decodedSegs segs))
+
+/-! ## Token tables in front of the handler
+
+Two tables are consulted with the token of a received message BEFORE the handler installed by `WithMux`: the observation
+table of the connection (`observation.Handler.Handle`) and, on udp servers, the server-wide multicast table
+(`udp/server` handler).  A message whose token is listed goes to that exchange's callback and never reaches the router.
+Exchanges that FAIL (a registration that times out, a discovery whose datagram cannot be written) return an error to
+the application; whether they drop their token on that exit is a regenerated fact. -/
+
+abbrev Token := List Nat
+
+structure PreMux where
+  obs : List Token := []        -- tokens of the connection's observation table
+  mcast : List Token := []      -- tokens of the udp server's multicast table
+  deriving DecidableEq, Repr
+
+inductive FailedExchange
+  | observe (tok : Token)       -- DoObserve / Observe returned an error (deadline, connection closed)
+  | discovery (tok : Token)     -- Discover / DiscoveryRequest returned a write error
+  deriving DecidableEq, Repr
+
+def PreMux.fail (t : PreMux) : FailedExchange → PreMux
+  | .observe tok => if observationCleansUpOnEveryError then t else { t with obs := tok :: t.obs }
+  | .discovery tok => if discoveryCleansUpOnFailedWrite then t else { t with mcast := tok :: t.mcast }
+
+/-- a message with token `tok` received after the failed exchanges `failed` (no other exchange is pending) -/
+def Router.connServe (r : Router) (failed : List FailedExchange) (order : List (Str × Route)) (code : Nat) (tok : Token)
+    (segs : List Str) : Outcome :=
+  let t := failed.foldl PreMux.fail {}
+  if tok ∈ t.obs ∨ tok ∈ t.mcast then .nothing      -- swallowed by the callback of a dead exchange
+  else r.wireServe order code segs
 
 end CoapVerif.Model.Router
